@@ -59,6 +59,13 @@ def h_single(B, cls="EOF", n=4, p=2, flags=None, weights=False, layout="2d", k=N
             B.eq("inverse_transform(S,normalized)==inverse_transform(S*norms)", rec3, rec4)
     norms = model.data["norms"]
     B.eq("scores(normalized)*norms==scores()", model.scores(normalized=True) * norms, sc)
+    # one mode picked by label: 'mode' is then a scalar coordinate, not a dimension
+    if layout in ("2d", "2d-internal-names") and k >= 2:
+        scn = model.scores(normalized=True)
+        one_n = B.completes("inverse_transform(one normalized mode picked by label, normalized=True) runs", lambda: model.inverse_transform(scn.sel(mode=2), normalized=True))
+        one = model.inverse_transform(sc.sel(mode=2))
+        if one_n is not None:
+            B.eq("inverse_transform(scores(normalized).sel(mode=2), normalized=True) == inverse_transform(scores().sel(mode=2))", one_n, one)
     B.eq("components(normalized=False)==components()*norms", _mul(model.components(normalized=False), 1.0), _mul(model.components(), norms))
     B.eq("transform(X,normalized)*norms==transform(X)", model.transform(X, normalized=True) * norms, model.transform(X))
 
